@@ -606,6 +606,9 @@ func main() {
 	fmt.Printf("%s %s: %d runs (%d distinct non-trivial traces) in %.1fs, %d violation(s), %d known finding(s), %d harness-trouble run(s)\n",
 		p.ID, tier, len(all), len(shapes), wall, violations, len(knownHit), infra)
 	if violations > 0 {
+		for _, m := range infraMsgs {
+			fmt.Fprintln(os.Stderr, "harness trouble:", m)
+		}
 		os.Exit(1)
 	}
 	if len(all) == 0 {
